@@ -33,6 +33,8 @@ def gen_cases(rng, tier):
                        "none": [], "all": list(names), "absent": ["nobody"]}[mode]
             kind = rng.choice(["remove_profile", "remove_profile", "remove_tuple", "remove_ballot"])
             c = {"kind": kind, "removed": removed, "condense": rng.random() < 0.6, "leave_zero": rng.random() < 0.4, "mode": mode}
+            if len(removed) == 1 and rng.random() < 0.6:
+                c["rm_style"] = "str"
             if kind == "remove_ballot":
                 c["ballot"] = rng.choice(jp["ballots"])
             else:
@@ -76,6 +78,13 @@ def gen_cases(rng, tier):
     return cases
 
 
+def rm_arg(case, removed):
+    """`removed` is documented as Union[str, list]: a single candidate is also passed as a bare string."""
+    if case.get("rm_style") == "str" and len(removed) == 1:
+        return removed[0]
+    return list(removed)
+
+
 def by_ranking_json(ballots, f=lambda r: r):
     return ref.weight_by_ranking((f(b.get("r")), b["w"]) for b in ballots)
 
@@ -96,7 +105,7 @@ def run_case(case):
         if kind == "remove_ballot":
             jb = case["ballot"]
             nm = Names(rules.all_names({"ballots": [jb], "cands": removed}))
-            out = call_impl(U.remove_cand, list(removed), vk.mk_ballot(jb), condense=cf, leave_zero_weight_ballots=lz)
+            out = call_impl(U.remove_cand, rm_arg(case, removed), vk.mk_ballot(jb), condense=cf, leave_zero_weight_ballots=lz)
             model.append({"op": 3, "arg": [[nm.id(c) for c in removed], cf, lz, vk.jb_val(nm, jb)],
                           "expect": out if isinstance(out, Err) else vk.ballot_val(nm, out), "what": "remove_cand(single Ballot)"})
             if isinstance(out, Err):
@@ -113,7 +122,7 @@ def run_case(case):
         prof = vk.mk_profile(jp)
         arg_rm = [nm.id(c) for c in removed]
         if kind == "remove_profile":
-            out = call_impl(U.remove_cand, list(removed), prof, condense=cf, leave_zero_weight_ballots=lz)
+            out = call_impl(U.remove_cand, rm_arg(case, removed), prof, condense=cf, leave_zero_weight_ballots=lz)
             model.append({"op": 1, "arg": [arg_rm, cf, lz, vk.jp_val(nm, jp, cands=list(prof.candidates))],
                           "expect": out if isinstance(out, Err) else vk.profile_val(nm, out), "what": "remove_cand(profile)"})
             out_ballots = None if isinstance(out, Err) else out.ballots
@@ -122,7 +131,7 @@ def run_case(case):
                 if left and set(out.candidates) != set(left):
                     oracle.append("candidate list is not the original minus the removed ones")
         else:
-            out = call_impl(U.remove_cand, list(removed), tuple(prof.ballots), condense=cf, leave_zero_weight_ballots=lz)
+            out = call_impl(U.remove_cand, rm_arg(case, removed), tuple(prof.ballots), condense=cf, leave_zero_weight_ballots=lz)
             model.append({"op": 2, "arg": [arg_rm, cf, lz, [vk.jb_val(nm, b) for b in jp["ballots"]]],
                           "expect": out if isinstance(out, Err) else vk.ballots_val(nm, out), "what": "remove_cand(tuple of ballots)"})
             out_ballots = None if isinstance(out, Err) else out
@@ -209,7 +218,14 @@ def run_case(case):
                 oracle.append("expansion is not 'every consistent linear order once with equal weight'")
             if kind == "expand" and len(outb) != len(want) and any(len(g) > 1 for g in jp["ballots"][0]["r"]):
                 oracle.append("a linear order appears more than once")
-            # first-place and Borda totals unchanged
+            # first-place and Borda totals unchanged — as the library's own utilities report them on the
+            # returned profile (they depend on its candidate list: a zero-vote candidate must survive)
+            if kind == "resolve":
+                for fn in (U.first_place_votes, U.borda_scores):
+                    a, b = call_impl(fn, prof), call_impl(fn, out)
+                    if not isinstance(a, Err) and (isinstance(b, Err) or {str(k): v for k, v in a.items()} != {str(k): v for k, v in b.items()}):
+                        oracle.append(f"{fn.__name__} of the resolved profile differs from that of the original profile")
+                        break
             cs = ref.jp_candidates(jp)
             n = len(cs)
             outj = {"ballots": [{"r": [list(g) for g in b.ranking], "w": str(b.weight)} for b in outb], "cands": cs}
